@@ -275,11 +275,38 @@ fn fixture(pool_len: usize) -> Fixture {
     Fixture { node_id: node.get_id(), chans, oracles, pool }
 }
 
-fn validator_factory(warn: bool) -> Arc<dyn ValidatorFactory> {
-    let mut policy = World::default_policy();
-    if warn {
-        policy.filter = PolicyFilter { rules: vec![FilterRule::new_warn("policy-chain-validated")] };
+/// The operator's policy filter of a case and whether it downgrades policy-chain-validated
+/// (the model's `warn`).  The FIRST matching rule decides, so a strict rule ahead of a lenient
+/// one keeps chain validation enforced: under kinds 2, 3 and 5 the signer must behave exactly
+/// as under the default filter; under 1 and 4 exactly as under the plain warn rule.
+fn policy_filter(kind: u8) -> (PolicyFilter, bool, &'static str) {
+    use lightning_signer::policy::filter::FilterResult;
+    let rule = |tag: &str, is_prefix: bool, action: FilterResult| FilterRule { tag: tag.to_string(), is_prefix, action };
+    match kind {
+        0 => (PolicyFilter { rules: vec![] }, false, "default (empty)"),
+        1 => (PolicyFilter { rules: vec![FilterRule::new_warn("policy-chain-validated")] }, true, "warn policy-chain-validated"),
+        2 => (vharness::shadowed_permissive_filter(), false, "error policy-* ahead of the permissive rule"),
+        3 => (
+            PolicyFilter { rules: vec![rule("policy-chain-validated", false, FilterResult::Error), rule("", true, FilterResult::Warn)] },
+            false,
+            "error policy-chain-validated ahead of warn *",
+        ),
+        4 => (
+            PolicyFilter { rules: vec![rule("policy-chain-validated", false, FilterResult::Warn), rule("policy-", true, FilterResult::Error)] },
+            true,
+            "warn policy-chain-validated ahead of error policy-*",
+        ),
+        _ => (
+            PolicyFilter { rules: vec![rule("policy-chain-", true, FilterResult::Error), rule("policy-onchain-fee-range", false, FilterResult::Warn), rule("policy-c", true, FilterResult::Warn)] },
+            false,
+            "error policy-chain-* ahead of warn policy-onchain-fee-range and warn policy-c*",
+        ),
     }
+}
+
+fn validator_factory(filter: u8) -> Arc<dyn ValidatorFactory> {
+    let mut policy = World::default_policy();
+    policy.filter = policy_filter(filter).0;
     Arc::new(SimpleValidatorFactory::new_with_policy(policy))
 }
 
@@ -1199,6 +1226,8 @@ struct Start {
     network: Network,
     trusted: Vec<usize>,
     warn: bool,
+    /// which policy filter ([policy_filter]); `warn` is what it does to policy-chain-validated
+    filter: u8,
     allow_deep: bool,
     window: usize,
     height: u32,
@@ -1257,9 +1286,7 @@ fn new_case_on(fx: &Fixture, st: &Start, salt0: u32, via_handler: bool) -> Case 
     let (own, hctx) = if via_handler {
         // a signer behind the wire protocol, its tracker put into the start state and persisted
         let mut policy = World::default_policy();
-        if st.warn {
-            policy.filter = PolicyFilter { rules: vec![FilterRule::new_warn("policy-chain-validated")] };
-        }
+        policy.filter = policy_filter(st.filter).0;
         let mut seed = [0xc1u8; 32];
         seed[1..5].copy_from_slice(&salt0.to_le_bytes());
         let world = World::new_on(st.network, policy, seed, KeyDerivationStyle::Native);
@@ -1292,7 +1319,7 @@ fn new_case_on(fx: &Fixture, st: &Start, salt0: u32, via_handler: bool) -> Case 
             st.network,
             Default::default(),
             fx.node_id,
-            validator_factory(st.warn),
+            validator_factory(st.filter),
             trusted,
         );
         tracker.set_allow_deep_reorgs(st.allow_deep);
@@ -1353,6 +1380,8 @@ fn gen_start(rng: &mut Rng, max_window: usize) -> Start {
         9 => 2014,
         _ => window as u32 + rng.below(50) as u32,
     };
+    // default filter, plain warn rule, and filters where an earlier rule shadows a later one
+    let filter = *rng.pick(&[0u8, 0, 0, 0, 0, 1, 1, 2, 2, 2, 3, 3, 3, 4, 4, 5]);
     let ntrusted = *rng.pick(&[0usize, 1, 1, 2, 2, 3, 3, 3, 4, 4, 5, 5]);
     let mut trusted: Vec<usize> = (0..5).collect();
     while trusted.len() > ntrusted {
@@ -1371,7 +1400,8 @@ fn gen_start(rng: &mut Rng, max_window: usize) -> Start {
     Start {
         network: if rng.chance(1, 6) { Network::Testnet } else { Network::Regtest },
         trusted,
-        warn: rng.chance(1, 8),
+        warn: policy_filter(filter).1,
+        filter,
         allow_deep: rng.chance(1, 4),
         window,
         height,
@@ -1636,7 +1666,7 @@ fn run_case(fx: &Fixture, rng: &mut Rng, id: usize, stats: &mut BTreeMap<String,
     let coq = format!("({}, {}, {}, {})", coq_cfg, coq_init, coq_list(&reqs), coq_list(&obs));
     json!({
         "id": id, "kind": if via_handler { "handler" } else { "seq" },
-        "start": {"network": format!("{:?}", st.network), "trusted": st.trusted, "warn": st.warn, "allow_deep": st.allow_deep,
+        "start": {"network": format!("{:?}", st.network), "trusted": st.trusted, "warn": st.warn, "policy_filter": policy_filter(st.filter).2, "allow_deep": st.allow_deep,
                   "window": st.window, "height": st.height, "tip_bits_kind": st.tip_bits_kind, "tip_filter_header_zero": st.tip_fh_zero, "prev_filter_header_zero": st.prev_fh_zero,
                   "listeners": st.listeners},
         "ops": jops,
@@ -1686,7 +1716,7 @@ fn scripted(_args: &Args) {
     let mut rng = Rng::new(1);
     // (1) refused removal, then the correct removal
     {
-        let st = Start { network: Network::Regtest, trusted: vec![0], warn: false, allow_deep: false, window: 4, height: 4,
+        let st = Start { network: Network::Regtest, trusted: vec![0], warn: false, filter: 0, allow_deep: false, window: 4, height: 4,
                          tip_bits_kind: None, tip_fh_zero: false, prev_fh_zero: false, listeners: vec![true, false] };
         let mut case = new_case(&fx, &st, 7001);
         let coq_cfg = case.coq_cfg(&fx);
@@ -1704,7 +1734,7 @@ fn scripted(_args: &Args) {
     }
     // (2) refused streamed block, then a correct streamed block
     {
-        let st = Start { network: Network::Regtest, trusted: vec![0], warn: false, allow_deep: false, window: 2, height: 2,
+        let st = Start { network: Network::Regtest, trusted: vec![0], warn: false, filter: 0, allow_deep: false, window: 2, height: 2,
                          tip_bits_kind: None, tip_fh_zero: false, prev_fh_zero: false, listeners: vec![true, false] };
         let mut case = new_case(&fx, &st, 7002);
         let coq_cfg = case.coq_cfg(&fx);
@@ -1745,7 +1775,7 @@ fn scripted(_args: &Args) {
     // (2b) three trusted oracles, the attestation of ONE of them repeated two and three times:
     // as many attestations with a trusted key as the quorum asks for, but one oracle only
     {
-        let st = Start { network: Network::Regtest, trusted: vec![0, 1, 2], warn: false, allow_deep: false, window: 2, height: 11,
+        let st = Start { network: Network::Regtest, trusted: vec![0, 1, 2], warn: false, filter: 0, allow_deep: false, window: 2, height: 11,
                          tip_bits_kind: None, tip_fh_zero: false, prev_fh_zero: false, listeners: vec![true, false] };
         let mut case = new_case(&fx, &st, 7005);
         let coq_cfg = case.coq_cfg(&fx);
@@ -1783,11 +1813,46 @@ fn scripted(_args: &Args) {
             "invalid_accepted": outs.iter().filter_map(|o| o.invalid_accepted.clone()).collect::<Vec<_>>(),
             "coq": coq}));
     }
+    // (2d) a lenient operator filter that keeps chain validation enforced (an error rule ahead of
+    // a warn-everything rule, as a prefix and as the exact tag): a block attested only by an
+    // untrusted oracle is refused on the way up and on the way down, exactly as under the default
+    // filter; with the warn rule FIRST the same block is accepted
+    for (kind, name) in [(2u8, "shadowed-permissive-filter-prefix"), (3u8, "shadowed-permissive-filter-exact-tag"), (4u8, "warn-rule-ahead-of-error-rule")] {
+        let st = Start { network: Network::Regtest, trusted: vec![0, 1], warn: policy_filter(kind).1, filter: kind, allow_deep: false, window: 2, height: 21,
+                         tip_bits_kind: None, tip_fh_zero: false, prev_fh_zero: false, listeners: vec![true, false] };
+        let mut case = new_case(&fx, &st, 7010 + kind as u32);
+        let coq_cfg = case.coq_cfg(&fx);
+        let coq_init = case.coq_state();
+        let mut outs = vec![];
+        let (b, ch) = case.build_add(&fx, &mut rng, Flavour::Valid);
+        let mut bad = Built { header: b.header, block: b.block.clone(), proof: b.proof.clone(), fh: b.fh };
+        bad.proof.attestations = vec![attest(&fx.oracles[6], &fx.oracles[6].pubkey, b.header.block_hash(), case.ghost_height + 1, b.fh)];
+        outs.push(case.do_add(&fx, &bad, ch.clone(), "add[attested only by an untrusted oracle]".into()));
+        if outs[0].code != 0 {
+            outs.push(case.do_add(&fx, &b, ch, "add[Valid]".into()));
+        }
+        let (prev, good, tip_block) = case.build_remove(&fx, &mut rng, Flavour::Valid).unwrap();
+        let mut badp = good.clone();
+        badp.attestations = vec![attest(&fx.oracles[6], &fx.oracles[6].pubkey, tip_block.block_hash(), case.ghost_height, filter_header_of(&tip_block, &prev.1))];
+        outs.push(case.do_remove(&fx, &prev, &badp, &tip_block, "remove[attested only by an untrusted oracle]".into()));
+        if outs.last().unwrap().code != 0 {
+            outs.push(case.do_remove(&fx, &prev, &good, &tip_block, "remove[Valid]".into()));
+        }
+        let coq = format!("({}, {}, {}, {})", coq_cfg, coq_init,
+            coq_list(&outs.iter().map(|o| o.coq_req.clone()).collect::<Vec<_>>()),
+            coq_list(&outs.iter().map(|o| o.coq_obs.clone()).collect::<Vec<_>>()));
+        emit("CASE", json!({"id": name, "kind": "scripted", "policy_filter": policy_filter(kind).2,
+            "ops": outs.iter().map(|o| json!([o.what, code_name(o.code)])).collect::<Vec<_>>(),
+            "atomicity_violations": outs.iter().filter_map(|o| o.atomic_violation.clone()).collect::<Vec<_>>(),
+            "later_request_violations": [],
+            "invalid_accepted": outs.iter().filter_map(|o| o.invalid_accepted.clone()).collect::<Vec<_>>(),
+            "coq": coq}));
+    }
     // (2c) a signer on Testnet (compiled-in checkpoints) whose tracker followed blocks up to a
     // height below the latest checkpoint restarts from its store: nothing moves, the next
     // correct block is accepted
     {
-        let st = Start { network: Network::Testnet, trusted: vec![0], warn: false, allow_deep: true, window: 2, height: 5,
+        let st = Start { network: Network::Testnet, trusted: vec![0], warn: false, filter: 0, allow_deep: true, window: 2, height: 5,
                          tip_bits_kind: None, tip_fh_zero: false, prev_fh_zero: false, listeners: vec![true, false] };
         let mut case = new_case_on(&fx, &st, 7006, true);
         case.last_store = case.stored_entry();
@@ -1815,7 +1880,7 @@ fn scripted(_args: &Args) {
     // (3) observation, not a C13 violation: a correct streamed removal is refused, because
     // remove_block compares the streamed block's hash with the hash of the PREVIOUS header
     {
-        let st = Start { network: Network::Regtest, trusted: vec![0], warn: false, allow_deep: false, window: 3, height: 7,
+        let st = Start { network: Network::Regtest, trusted: vec![0], warn: false, filter: 0, allow_deep: false, window: 3, height: 7,
                          tip_bits_kind: None, tip_fh_zero: false, prev_fh_zero: false, listeners: vec![true, false] };
         let mut case = new_case(&fx, &st, 7003);
         let coq_cfg = case.coq_cfg(&fx);
@@ -1839,7 +1904,7 @@ fn scripted(_args: &Args) {
     // (4) observation: a stream that stops short followed by AddBlock is a panic inside
     // BlockDecoder::finish (merkle root assertion), not Err(BlockDecodeError)
     {
-        let st = Start { network: Network::Regtest, trusted: vec![0], warn: false, allow_deep: false, window: 2, height: 9,
+        let st = Start { network: Network::Regtest, trusted: vec![0], warn: false, filter: 0, allow_deep: false, window: 2, height: 9,
                          tip_bits_kind: None, tip_fh_zero: false, prev_fh_zero: false, listeners: vec![false, false] };
         let mut case = new_case(&fx, &st, 7004);
         let coq_cfg = case.coq_cfg(&fx);
